@@ -290,6 +290,14 @@ impl KeyKeeperSharedState {
         Self(sender)
     }
 
+    /// Verification only: a handle whose actor task is gone, so that every request on it fails the way it does
+    /// when the key keeper shared-state task has ended.
+    #[cfg(azure_guestproxyagent_verif)]
+    pub fn verif_without_actor() -> Self {
+        let (sender, _receiver) = mpsc::channel(1);
+        Self(sender)
+    }
+
     async fn set_key(&self, key: Option<Key>) -> Result<()> {
         #[cfg(azure_guestproxyagent_verif)]
         super::verif_sched::point("kk.set_key").await;
